@@ -263,15 +263,29 @@ func orderAndCopies(e *Env) {
 	}
 	var connected []connRec
 	var discEnter []uint64
+	// now and then one verb has a crowd of handlers in one set (a bot with a
+	// plugin per feature): "every invocation" has no upper bound on how many
+	crowdVerb := ""
+	if n <= 20 && g.Pct(15) {
+		crowdVerb = verbs[g.Intn(len(verbs))]
+	}
 	addHandlers := func(verb string) {
 		nf := g.Range(1, 4)
 		nb := g.Range(0, 2)
+		if verb == crowdVerb {
+			if g.Bool() {
+				nf = g.Range(9, 19)
+			} else {
+				nb = g.Range(9, 19)
+			}
+			e.S.Count("probe.crowd-of-handlers-for-one-event")
+		}
 		for k := 0; k < nf+nb; k++ {
 			id := nh
 			nh++
 			bg := k >= nf
 			dur := time.Duration(0)
-			if g.Pct(25) {
+			if g.Pct(25) && (verb != crowdVerb || g.Pct(20)) {
 				dur = time.Duration(g.Range(1, 2000)) * time.Millisecond
 			}
 			yields := g.W(5, 2, 1) * 7
